@@ -227,4 +227,21 @@ PROPS = {
                  5: "NewRow accepts/rejects differently", 6: "NewRow result", 7: "model after GetRowData", 8: "GetRowData accepts/rejects differently"},
         "assumptions": ["sets handed to the mapper are duplicate-free; map keys are distinct as Go compares them", "non-finite reals excluded (the property's quantifier)"],
     },
+    "C14": {
+        "level_text": ("Theorems (Props/C14.v, axiom-free): the model applies the rows of a notification one at a time (Populate/Populate2 + ApplyCacheUpdate), enqueuing one event "
+                       "per applied change into a bounded FIFO drained by a second goroutine towards every handler. For every history, and every interleaving of enqueue and "
+                       "dequeue steps in which nothing was dropped, once the buffer is drained each handler's log replayed on the empty table set is legal at every step (add "
+                       "meets no row; update/delete meet exactly the state they carry as old) and ends in the cache contents; every event is an applied change with old <> new; "
+                       "an unchanged row produces none; nothing is dropped below capacity; all handlers see one sequence. Tied to the code by feeding a real TableCache (two "
+                       "handlers, one slow, dispatcher running) with the notifications a real server sends (both encodings) and with notifications it must refuse. "
+                       "Partial: goroutine interleavings are those the scheduler produces (plus the slow handler), not enumerated; Purge (no events) is outside the property."),
+        "level_note": ("Trusted: Coq kernel + vm_compute, std++; Go harness incl. its shadow copy driven by the events (direct oracle). Waiting for the dispatcher is by polling "
+                       "the handlers' logs up to the expected count."),
+        "rule": ("histories of 2..6 (thorough ..12) transactions on a schema with references, garbage collection and weak pruning, monitored from before the first or the second "
+                 "transaction with 'monitor' or 'monitor_cond'; 20% of the steps are followed by a notification about an unknown row. Non-trivial: the history shrinks a table "
+                 "and delivers update and delete events."),
+        "tags": {1: "notification accepted/refused", 2: "delivered events vs the model's (as a set)", 3: "replaying the delivered sequence on the previous contents",
+                 4: "cache contents afterwards"},
+        "assumptions": ["fewer events outstanding than the buffer holds (65536)", "handlers registered before the history starts"],
+    },
 }
